@@ -15,6 +15,7 @@ for pre in "$@"; do
     [ -f "$p" ] || continue
     name=$(basename "$p" .patch)
     exp=$(python3 -c "import json;print(' '.join(json.load(open('$HERE/mutants/expect.json'))['$name']['expect']))")
+    if [ -z "$exp" ]; then echo "$name: equivalent mutant, nothing expected"; continue; fi
     if [ "$exp" = "SILENT" ]; then
       RES=$("$HERE/tools/mutharness.sh" run "$p" $ALL | cut -c1-300)
       if echo "$RES" | grep -q "CAUGHT"; then echo "$name: FALSE ALARM on a legal refactoring:"; echo "$RES" | grep CAUGHT; BAD=1; else echo "$name: silent (20 checks)"; fi
